@@ -500,40 +500,34 @@ def reports_unless_stop_induced(ctx, r, h, sink_pred, label):
     anc = {"CancelledError": {"CancelledError", "Exception"}, "RuntimeError": {"RuntimeError", "Exception"}}
     for stopping, cancelled in ((False, True), (False, False), (True, False)):
         case_cls = "CancelledError" if cancelled else "RuntimeError"
-        dead = set()
-        for n in cf.nodes:
-            if n.kind == "test":
-                v = _eval_flag(n.stmt.test, p, case_cls, anc, stopping)
-                if v is not None:
-                    for t, lab in cf.succ[n.id]:
-                        if lab and lab[0] == "cond" and lab[2] != v:
-                            dead.add((n.id, t))
         sinks = {n.id for n in cf.nodes if any(sink_pred(c) for c in n.calls())}
-        seen, stack, hit = set(), [cf.entry.id], False
-        while stack:
-            x = stack.pop()
-            if x in seen:
-                continue
-            seen.add(x)
-            if x in sinks:
-                hit = True
-                break
-            for t, lab in cf.succ[x]:
-                if (x, t) not in dead and lab != ("exc",):
-                    stack.append(t)
+        hit = case_reach(cf, p, case_cls, anc, stopping, sinks)
         r.check(hit, "%s#reports[stopping=%s,cancelled=%s]" % (h.qname, stopping, cancelled),
                 "%s: a failure with stopping=%s, CancelledError=%s never reaches the report" % (label, stopping, cancelled), where(h, h.node),
                 "a CancelledError not caused by stop() (e.g. the application's own timeout on the processor's Deferred) is swallowed: the "
                 "feeder goes on to the next block and progress passes the failed one")
 
 
-def _eval_flag(test, p, case_cls, anc, stopping):
+def _eval_flag(test, p, case_cls, anc, stopping, env=None):
     import ast as _ast
+    env = env or {}
+    if isinstance(test, _ast.Constant) and isinstance(test.value, bool):
+        return test.value
+    if isinstance(test, _ast.Name) and test.id in env:
+        return env[test.id]
+    if isinstance(test, _ast.Compare) and len(test.ops) == 1 and isinstance(test.comparators[0], _ast.Constant) and \
+            test.comparators[0].value is None and isinstance(test.left, _ast.Call) and call_name(test.left) == "check":
+        v = _eval_flag(test.left, p, case_cls, anc, stopping, env)  # check() returns the class or None
+        if v is None:
+            return None
+        return v if isinstance(test.ops[0], (_ast.IsNot, _ast.NotEq)) else (not v)
+    if isinstance(test, _ast.Call) and isinstance(test.func, _ast.Name) and test.func.id == "bool" and len(test.args) == 1:
+        return _eval_flag(test.args[0], p, case_cls, anc, stopping, env)
     if isinstance(test, _ast.UnaryOp) and isinstance(test.op, _ast.Not):
-        v = _eval_flag(test.operand, p, case_cls, anc, stopping)
+        v = _eval_flag(test.operand, p, case_cls, anc, stopping, env)
         return None if v is None else (not v)
     if isinstance(test, _ast.BoolOp):
-        vals = [_eval_flag(v, p, case_cls, anc, stopping) for v in test.values]
+        vals = [_eval_flag(v, p, case_cls, anc, stopping, env) for v in test.values]
         if isinstance(test.op, _ast.And):
             if any(v is False for v in vals):
                 return False
@@ -964,4 +958,61 @@ def result_stored(cfg, n, call, attr):
             og = deferred_origins(cfg, sn.id, v) or []
             if len(og) == 1 and og[0] is call and not cfg.normal_exits_from(n.id, avoid=[sn.id]):
                 return True
+    return False
+
+
+def call_owner(call):
+    """The Func whose own scope contains this call node (current program), or None."""
+    prog = _CURRENT["prog"]
+    if prog is None:
+        return None
+    if _CURRENT["owner"] is None:
+        _recv_alias(call)  # builds the owner index
+    return (_CURRENT["owner"] or {}).get(id(call))
+
+
+def callee_expr(call):
+    """The expression that denotes the callee, with a local that is bound once to a bound method / function
+    (`handler = self.rejoin_after_error ... handler(f)`) replaced by what it was bound to."""
+    f = call_owner(call)
+    if f is None or not isinstance(call.func, ast.Name):
+        return call.func
+    e = expand(_CURRENT["prog"], f, call.func, consts=False)
+    return e if isinstance(e, (ast.Attribute, ast.Name)) else call.func
+
+
+def case_reach(cfg, p, case_cls, anc, stopping, sinks, flag_eval=None):
+    """Is a node of `sinks` reachable from the entry when the handler runs for a failure of class `case_cls` with
+    `self._stopping == stopping`?  Branches whose test evaluates (three-valued) under that case are pruned; boolean
+    locals assigned from evaluable expressions are tracked along each path, so a test on a temporary or on the result
+    of an inlined predicate helper prunes as the expression itself would."""
+    ev = flag_eval or _eval_flag
+    seen = set()
+    stack = [(cfg.entry.id, ())]
+    while stack:
+        x, envt = stack.pop()
+        if (x, envt) in seen:
+            continue
+        seen.add((x, envt))
+        if x in sinks:
+            return True
+        n = cfg.nodes[x]
+        env = dict(envt)
+        if n.kind == "stmt" and isinstance(n.stmt, (ast.Assign, ast.AnnAssign)) and getattr(n.stmt, "value", None) is not None:
+            tg = n.stmt.targets if isinstance(n.stmt, ast.Assign) else [n.stmt.target]
+            for t in tg:
+                if isinstance(t, ast.Name):
+                    v = ev(n.stmt.value, p, case_cls, anc, stopping, env)
+                    if v is None:
+                        env.pop(t.id, None)
+                    else:
+                        env[t.id] = v
+        verdict = ev(n.stmt.test, p, case_cls, anc, stopping, env) if n.kind == "test" else None
+        nxt = tuple(sorted(env.items()))
+        for t, lab in cfg.succ[x]:
+            if lab == ("exc",):
+                continue
+            if verdict is not None and lab and lab[0] == "cond" and lab[2] != verdict:
+                continue
+            stack.append((t, nxt))
     return False
